@@ -36,8 +36,27 @@ def gen_inputrc(rng, mode):
 DUMPKEYS = {"functions": b"\x18\x04f", "macros": b"\x18\x04m", "variables": b"\x18\x04v"}
 
 
+# code points with a role in the notation, in the inputrc line syntax or in the dump commands' own formatting
+SPECIAL = [92, 34, 39, 37, 35, 58, 32, 9, 27, 1, 13, 127, 255, 0xe9, 45, 67, 77, 101, 120, 48, 100, 115, 0x4e2d]
+PAIRS = [(a, b) for a in SPECIAL for b in SPECIAL]
+NOT_FIRST = (0x18, 0x1b, 0x1c, 0x32, 13, 10)     # keys the driver itself types in these sessions
+
+
+def raw_binds(rng, kms, n):
+    """binds installed through Config.Bind with raw key sequences / macro bodies made of special code points"""
+    out = []
+    for _ in range(n):
+        a, b = rng.choice(PAIRS)
+        body = [a, b] + [rng.choice(SPECIAL) for _ in range(rng.choice([0, 0, 1, 3]))]
+        sq = [rng.choice([c for c in SPECIAL if c not in NOT_FIRST])] + [rng.choice(SPECIAL) for _ in range(rng.choice([0, 1, 1, 2]))]
+        macro = rng.random() < 0.7
+        out.append({"km": rng.choice(kms), "seq": "".join(map(chr, sq)).encode("utf-8").hex(),
+                    "act": "".join(map(chr, body)) if macro else rng.choice(CMD_POOL), "macro": macro})
+    return out
+
+
 def make_case(cid, rng, mode):
-    binds = []
+    binds = raw_binds(rng, ["emacs"] if mode == "emacs" else ["vi-insert", "vi-command"], rng.choice([4, 8, 12]))
     for km in ("emacs", "vi-insert", "vi-command"):
         for what, seq in DUMPKEYS.items():
             binds.append({"km": km, "seq": seq.hex(), "act": "dump-" + what, "macro": False})
